@@ -25,9 +25,10 @@ import (
 type cliScenario struct {
 	Grammar  string   `json:"grammar"` // valid | warned | syntax-error | empty | bad-go
 	Text     string   `json:"text"`
-	Source   string   `json:"source"`             // file | stdin | dash | missing | directory
-	Dest     string   `json:"dest"`               // default | named | stdout | missing-parent | directory | device-full | stdout-full
-	Existing string   `json:"existing,omitempty"` // what the destination file holds beforehand: "" | shorter | longer
+	Source   string   `json:"source"`              // file | stdin | dash | missing | directory
+	Dest     string   `json:"dest"`                // default | named | stdout | missing-parent | directory | device-full | stdout-full
+	Existing string   `json:"existing,omitempty"`  // what the destination file holds beforehand: "" | shorter | longer
+	LongLine int      `json:"long_line,omitempty"` // the text holds one comment line of this many bytes (sizes around the usual I/O buffer limits)
 	Flags    []string `json:"flags"`
 }
 
@@ -35,6 +36,9 @@ func (s cliScenario) String() string {
 	ex := ""
 	if s.Existing != "" {
 		ex = " existing-destination=" + s.Existing
+	}
+	if s.LongLine > 0 {
+		ex += fmt.Sprintf(" comment-line-of-%d-bytes", s.LongLine)
 	}
 	return fmt.Sprintf("grammar=%s source=%s dest=%s%s flags=%v", s.Grammar, s.Source, s.Dest, ex, s.Flags)
 }
@@ -75,6 +79,25 @@ func c18Gen(t *rapid.T) cliScenario {
 		}
 	case "empty":
 		sc.Text = rapid.SampledFrom([]string{"", "\n", "# only a comment\n"}).Draw(t, "emptytext")
+	case "valid", "warned":
+		if rapid.IntRange(0, 3).Draw(t, "longline?") == 0 {
+			// a grammar is text of any shape: one very long line (sizes around the limits of
+			// line- and block-buffered readers) in front of a rule that the parser needs
+			sc.LongLine = rapid.SampledFrom([]int{4095, 4096, 4097, 65535, 65536, 65537, 70000, 1 << 20}).Draw(t, "longlen")
+			lines := strings.SplitAfter(sc.Text, "\n")
+			var starts []int
+			for i, l := range lines {
+				if i > 0 && strings.Contains(l, "<-") {
+					starts = append(starts, i)
+				}
+			}
+			at := len(lines)
+			if len(starts) > 0 {
+				at = starts[rapid.IntRange(0, len(starts)-1).Draw(t, "longat")]
+			}
+			long := "#" + strings.Repeat("x", sc.LongLine-2) + "\n"
+			sc.Text = strings.Join(lines[:at], "") + long + strings.Join(lines[at:], "")
+		}
 	}
 	sc.Source = rapid.SampledFrom([]string{"file", "file", "stdin", "dash", "missing", "directory"}).Draw(t, "source")
 	sc.Dest = rapid.SampledFrom([]string{"default", "named", "stdout", "missing-parent", "directory", "device-full", "stdout-full"}).Draw(t, "dest")
